@@ -25,5 +25,13 @@ void unit_ip() {
     c += amgcl::backend::inner_product(nx, ny);
     Eigen::VectorXcd vx, vy;
     c += amgcl::backend::inner_product(vx, vy);
+    // conjugate transposes of every value type (C08)
+    double ad = amgcl::math::adjoint(1.0);
+    C ac = amgcl::math::adjoint(C(1, 2));
+    auto asm_ = amgcl::math::adjoint(sm);
+    auto asv = amgcl::math::adjoint(sv);
+    amgcl::static_matrix<double, 2, 2> rm; auto arm = amgcl::math::adjoint(rm);
+    Eigen::Matrix<C, 2, 2> aem = amgcl::math::adjoint(em);
+    (void)ad; (void)ac; (void)asm_; (void)asv; (void)arm; (void)aem;
     (void)d; (void)p1; (void)p2;
 }
